@@ -2,7 +2,7 @@
    Model: Model/C32m.v — (a) snapshot selection / the snapshot copy writes (cmd/restic/cmd_copy.go:
    collectAllSnapshots, similarSnapshots, copySaveSnapshot); (b) the destination's write trace
    (copyTreeBatched: packs and indexes of a batch are flushed before its snapshots are saved). *)
-From Restic Require Import Base.Prelude Model.C32m Proofs.C32p.
+From Restic Require Import Base.Prelude Model.C32m Proofs.C32p Gen.ParamsC32.
 Import C32m.
 
 (* copy_idempotent: after a run that wrote one snapshot per selected source snapshot, a second run
@@ -81,6 +81,22 @@ Proof. exact copy_run_closure. Qed.
 Print Assumptions C32_visited_skip_sound.
 Print Assumptions C32_copy_tree_sound.
 Print Assumptions C32_copy_run_closure.
+(* the field set similarSnapshots really compares (probed on the running code, regenerated into
+   Gen/ParamsC32.v on every run) is the one the model's s_key/similar stand for: the tree and the time are
+   compared, Parent and Original are not (copy rewrites exactly these two, so C32_copy_idempotent's
+   'the copy is similar to its source' rests on this), Paths/Tags as sets, Excludes in order *)
+Theorem C32_similar_field_set :
+  ParamsC32.similar_mask = expected_similar_mask /\
+  ParamsC32.snapshot_fields = expected_field_count /\
+  Z.testbit ParamsC32.similar_mask ParamsC32.idx_tree = true /\
+  Z.testbit ParamsC32.similar_mask ParamsC32.idx_time = true /\
+  Z.testbit ParamsC32.similar_mask ParamsC32.idx_parent = false /\
+  Z.testbit ParamsC32.similar_mask ParamsC32.idx_original = false /\
+  ParamsC32.paths_order_sensitive = 0%Z /\ ParamsC32.tags_order_sensitive = 0%Z /\
+  ParamsC32.excludes_order_sensitive = 1%Z.
+Proof. exact similar_field_set_pinned. Qed.
+
+Print Assumptions C32_similar_field_set.
 Print Assumptions C32_copy_idempotent.
 Print Assumptions C32_copy_faithful.
 Print Assumptions C32_copy_monotone.
